@@ -4,6 +4,7 @@
 package main
 
 import (
+	"net/http"
 	"crypto/sha512"
 	"fmt"
 	"net/url"
@@ -306,12 +307,12 @@ func runC13(t *testing.T, cases []map[string]interface{}, ev *vEvents) {
 // C18: rendering
 
 var vAtomText = map[string]string{"dq": `"`, "sq": `'`, "lt": "<", "gt": ">", "amp": "&", "entity": "&quot;", "backtick": "`",
-	"nl": "\n", "closetag": "</title></h2></code>", "script": "<script>zzq()</script>", "attr": " onzzq=zzq() "}
+	"nl": "\n", "closetag": "</title></h2></code>", "script": "<script>zzqj7w()</script>", "attr": " onzzqj7w=zzqj7w() "}
 
 func vPayloadText(atoms []string) string {
-	s := "zzqA"
+	s := "zzqj7wA"
 	for _, a := range atoms {
-		s += vAtomText[a] + "zzq"
+		s += vAtomText[a] + "zzqj7w"
 	}
 	return s + "Z"
 }
@@ -322,18 +323,18 @@ type vFinding struct {
 }
 
 // inspect parses a page with the HTML5 tokenizer and reports where the canary surfaced.
-// A payload is "zzqA" ... "zzqZ" with "zzq" after every atom. It is inert iff every piece of it sits inside ONE
+// A payload is "zzqj7wA" ... "zzqj7wZ" with "zzqj7w" after every atom. It is inert iff every piece of it sits inside ONE
 // text node or ONE attribute value (start and end marker in the same node, whatever escaping happened in
 // between), outside script/style raw text, and no element or attribute NAME carries the canary.
-var vWholePayload = regexp.MustCompile(`(?s)zzqA.*?zzqZ`)
+var vWholePayload = regexp.MustCompile(`(?s)zzqj7wA.*?zzqj7wZ`)
 
 func vInspect(page []byte, payload string) (found bool, f vFinding) {
 	z := html.NewTokenizer(strings.NewReader(string(page)))
 	raw := ""
 	inert := func(s string) {
-		if strings.Contains(s, "zzq") {
+		if strings.Contains(s, "zzqj7w") {
 			found = true
-			if strings.Contains(vWholePayload.ReplaceAllString(s, ""), "zzq") {
+			if strings.Contains(vWholePayload.ReplaceAllString(s, ""), "zzqj7w") {
 				f.Split = true // a piece of the payload escaped the node its start marker is in
 			}
 			if raw != "" {
@@ -350,7 +351,7 @@ func vInspect(page []byte, payload string) (found bool, f vFinding) {
 		switch tt {
 		case html.StartTagToken, html.SelfClosingTagToken, html.EndTagToken:
 			name := strings.ToLower(tok.Data)
-			if strings.Contains(name, "zzq") {
+			if strings.Contains(name, "zzqj7w") {
 				found, f.InName = true, true
 			}
 			if tt == html.StartTagToken && (name == "script" || name == "style") {
@@ -362,7 +363,7 @@ func vInspect(page []byte, payload string) (found bool, f vFinding) {
 			keep := raw
 			raw = ""
 			for _, a := range tok.Attr {
-				if strings.Contains(strings.ToLower(a.Key), "zzq") {
+				if strings.Contains(strings.ToLower(a.Key), "zzqj7w") {
 					found, f.InName = true, true
 				}
 				inert(a.Val)
@@ -378,6 +379,7 @@ func vInspect(page []byte, payload string) (found bool, f vFinding) {
 func runC18(t *testing.T, cases []map[string]interface{}, ev *vEvents) {
 	w := newWorld(vWorldOpts{CertCfg: []string{"password"}, WebUICfg: []string{"password"}, AdminUsers: []string{"admin"}, CLITokens: true})
 	defer w.Close()
+	w.st.Config.Base.AutomationUsers = []string{"svc"}
 	w2 := newWorld(vWorldOpts{CertCfg: []string{"U2F"}, WebUICfg: []string{"U2F"}}) // 2FA page after password login
 	defer w2.Close()
 	htmlH := map[string]string{"Accept": "text/html", "User-Agent": "Mozilla/5.0 Chrome/120.0"}
@@ -441,6 +443,32 @@ func runC18(t *testing.T, cases []map[string]interface{}, ev *vEvents) {
 			pages = append(pages, w.Do(vReq{Method: "POST", Path: "/admin/addUser", Headers: htmlH, Cookies: admin,
 				Form: url.Values{"username": {payload}}}))
 			w.st.DeleteUserProfile(payload)
+		case "error_details":
+			for _, q := range []vReq{
+				{Method: "POST", Path: getRoleRequestingPath, Cookies: admin, Form: url.Values{"identity": {"svc"}, "requestor_netblock": {"10.0.0.0/8"}, "target_netblock": {payload}, "pubkey": {"x"}}},
+				{Method: "POST", Path: getRoleRequestingPath, Cookies: admin, Form: url.Values{"identity": {payload}, "requestor_netblock": {payload}, "pubkey": {payload}}},
+				{Method: "POST", Path: "/certgen/admin?type=" + url.QueryEscape(payload), Cookies: admin, Form: url.Values{"duration": {payload}}},
+				{Method: "POST", Path: "/certgen/" + url.PathEscape(strings.ReplaceAll(payload, "/", "")), Cookies: admin, Form: url.Values{"duration": {"1h"}}},
+				{Method: "GET", Path: idpOpenIDCAuthorizationPath, Cookies: admin, Form: url.Values{"client_id": {vClientA}, "redirect_uri": {payload}, "response_type": {payload}, "scope": {payload}}},
+				{Method: "POST", Path: idpOpenIDCTokenPath, Form: url.Values{"grant_type": {payload}, "code": {payload}, "client_id": {payload}}},
+				{Method: "POST", Path: u2fTokenManagementPath, Cookies: admin, Form: url.Values{"username": {payload}, "index": {payload}, "action": {payload}}},
+				{Method: "POST", Path: totpTokenManagementPath, Cookies: admin, Form: url.Values{"username": {"admin"}, "index": {payload}, "action": {payload}, "name": {payload}}},
+				{Method: "POST", Path: "/admin/deleteUser", Cookies: admin, Form: url.Values{"username": {payload}}},
+				{Method: "GET", Path: "/sendAuthDocument", Cookies: admin, Form: url.Values{"token": {payload}, "port": {payload}}},
+				{Method: "POST", Path: bootstrapOtpAuthPath, Cookies: admin, Form: url.Values{"OTP": {payload}}},
+			} {
+				q.Headers = htmlH
+				pages = append(pages, w.Do(q))
+			}
+		case "session_user_pages":
+			name := strings.ReplaceAll(payload, "/", "")
+			vMust(w.st.SaveUserProfile(name, &userProfile{Username: name}))
+			w.st.Config.Base.EnableLocalTOTP = true
+			ck := map[string]string{authCookieName: w.mintCookie(name, AuthTypePassword|AuthTypeU2F, 0)}
+			for _, pth := range []string{"/profile/", totpGeneratNewPath, "/showAuthToken", "/", "/users/", u2fRegustisterRequestPath, "/api/v0/logout"} {
+				pages = append(pages, w.Do(vReq{Method: "GET", Path: pth, Headers: htmlH, Cookies: ck}))
+			}
+			w.st.DeleteUserProfile(name)
 		case "logout_user":
 			pages = append(pages, w.Do(vReq{Method: "GET", Path: "/api/v0/logout", Headers: htmlH,
 				Cookies: map[string]string{authCookieName: w.mintCookie(payload, AuthTypePassword, 0)}}))
@@ -449,18 +477,26 @@ func runC18(t *testing.T, cases []map[string]interface{}, ev *vEvents) {
 		findings := []map[string]interface{}{}
 		panicked := false
 		rendered := 0
-		for _, p := range pages {
+		for pi, p := range pages {
 			if p.Panic != "" {
 				panicked = true
 			}
 			ct := p.Header.Get("Content-Type")
+			if ct == "" {
+				// what net/http's server does when the handler declares nothing: sniff the first 512 bytes
+				n := len(p.Body)
+				if n > 512 {
+					n = 512
+				}
+				ct = http.DetectContentType(p.Body[:n])
+			}
 			if !strings.Contains(ct, "html") && ct != "" {
 				continue // text/plain bodies are not markup
 			}
 			found, f := vInspect(p.Body, payload)
 			if found {
 				rendered++
-				findings = append(findings, map[string]interface{}{"inname": f.InName, "split": f.Split, "status": p.Status})
+				findings = append(findings, map[string]interface{}{"inname": f.InName, "split": f.Split, "status": p.Status, "ctype": ct, "page": pi})
 			}
 		}
 		ev.Emit(map[string]interface{}{"i": i, "ev": "Render", "case": c,
